@@ -9,6 +9,7 @@ import pairsetup_env as pe
 from common import Ctx, hx, run_model_parallel
 from ref import pairsetup_client as pc
 from ref import srp_client as ref
+from ref import tlv8
 
 PROP = "C08"
 LEAN_MODULE = "Props.C08"
@@ -147,6 +148,40 @@ def gen_cases(ctx: Ctx) -> List[Dict[str, Any]]:
     return cases
 
 
+def context_cases(ctx: Ctx) -> List[Dict[str, Any]]:
+    """Exchanges that do not start from a pristine, quiet accessory: deterministic families first."""
+    rng = ctx.rng
+    out = []
+
+    def base(**kw):
+        c = random_case(rng)
+        c["kind"] = "context"
+        c.update(kw)
+        return c
+
+    def pre(kind, conn):
+        return {"kind": kind, "conn": conn, "seed": rng.getrandbits(32)}
+
+    for kind in FAILED_ATTEMPTS + ABANDONED:
+        for pc_, cc in ((0, 0), (1, 0)):        # same connection / another one
+            out.append(base(prefix=[pre(kind, pc_)], conn=cc))
+    out.append(base(prefix=[pre("wrong-code", 0), pre("wrong-code", 0), pre("abandon-M4", 1)], conn=0))
+    out.append(base(prefix=[pre("abandon-M4", 0), pre("wrong-proof", 1)], conn=1))
+    for kind in BYSTANDERS:
+        out.append(base(between={"M1-M3": [kind]}))
+        out.append(base(between={"M3-M5": [kind]}))
+        out.append(base(between={"pre": [kind], "M1-M3": [kind], "M3-M5": [kind]}))
+    for _ in range(ctx.n(8, 300)):
+        c = base(conn=rng.choice([0, 0, 1]))
+        if rng.random() < 0.7:
+            c["prefix"] = [pre(rng.choice(FAILED_ATTEMPTS + ABANDONED), rng.choice([0, 1])) for _ in range(rng.randrange(1, 4))]
+        if rng.random() < 0.6:
+            c["between"] = {pos: [rng.choice(BYSTANDERS) for _ in range(rng.randrange(0, 3))]
+                            for pos in ("pre", "M1-M3", "M3-M5")}
+        out.append(c)
+    return out
+
+
 # --------------------------------------------------------------------------- real code: numeric
 
 
@@ -225,8 +260,14 @@ def run_exchange(case: Dict[str, Any]):
     env = pe.Env(code, bytes.fromhex(case["acc_seed"]))
     sc = pe.Script(env)
     v: Dict[str, Any] = {"stage": "M1", "ok": False, "why": "", "K0": None}
+    conn = case.get("conn", 0)
+    between = case.get("between", {})
     try:
-        r = sc.send(pc.m1_body(), salt, secret, idents=[ident])
+        for p in case.get("prefix", []):
+            _run_prefix(sc, code, p)
+        for k in between.get("pre", []):
+            sc.bystander(k)
+        r = sc.send(pc.m1_body(), salt, secret, conn=conn, idents=[ident])
         t = pc.parse(r["body"]) if r["status"] == 200 else None
         if not t or t.get(pc.T_STATE) != b"\x02" or pc.T_ERROR in t or pc.T_SALT not in t or pc.T_PUBLIC_KEY not in t:
             v["why"] = f"M2 not usable (status {r['status']})"
@@ -236,7 +277,9 @@ def run_exchange(case: Dict[str, Any]):
         v["lead"] = {"A": 384 - len(cl.A_bytes), "B": 384 - len(t[pc.T_PUBLIC_KEY]),
                      "S": 384 - len(ref.i2b(cl.S)), "K": len(cl.K) - len(cl.K.lstrip(b"\x00"))}
         v["stage"] = "M3"
-        r = sc.send(pc.m3_body(cl.A_bytes, cl.M1), salt, secret)
+        for k in between.get("M1-M3", []):
+            sc.bystander(k)
+        r = sc.send(pc.m3_body(cl.A_bytes, cl.M1), salt, secret, conn=conn)
         t = pc.parse(r["body"]) if r["status"] == 200 else None
         if not t or t.get(pc.T_STATE) != b"\x04" or pc.T_ERROR in t:
             v["why"] = f"M4 refuses the correct proof (status {r['status']}, error {hx(t.get(pc.T_ERROR, b'')) if t else '-'})"
@@ -246,7 +289,9 @@ def run_exchange(case: Dict[str, Any]):
             return sc, v
         v["stage"] = "M5"
         sub, ltpk = pc.m5_subtlv(cl.K, ident, ltsk)
-        r = sc.send(pc.m5_body(cl.K, sub), salt, secret)
+        for k in between.get("M3-M5", []):
+            sc.bystander(k)
+        r = sc.send(pc.m5_body(cl.K, sub), salt, secret, conn=conn)
         if r["status"] != 200:
             v["why"] = f"M5 answered with HTTP {r['status']}"
             return sc, v
@@ -280,14 +325,95 @@ def run_exchange(case: Dict[str, Any]):
         env.close()
 
 
+FAILED_ATTEMPTS = ("wrong-code", "wrong-proof", "bogus-M3", "short-M3", "garbage", "M3-no-M1", "degenerate", "bad-M5")
+ABANDONED = ("abandon-M1", "abandon-M4")
+BYSTANDERS = ("made-lost", "get-lost", "get")
+
+
+def _run_prefix(sc, code: bytes, p: Dict[str, Any]):
+    """What happened on the accessory before the controller's run: a failed attempt or an abandoned
+    exchange, on connection p['conn'].  Never completes a pairing."""
+    import random as _random
+
+    from cryptography.hazmat.primitives.asymmetric import ed25519
+
+    rng = _random.Random(p["seed"])
+    rb = lambda n: bytes(rng.randrange(256) for _ in range(n))  # noqa: E731
+    c, kind = p["conn"], p["kind"]
+    salt, secret = rb(16), rb(32)
+    wrong = (code[:-1] + (b"1" if code[-1:] != b"1" else b"2"))
+
+    def m2():
+        r = sc.send(pc.m1_body(), salt, secret, conn=c)
+        t = pc.parse(r["body"]) or {}
+        return t.get(pc.T_SALT, b"\x00" * 16), t.get(pc.T_PUBLIC_KEY, b"\x02")
+
+    if kind == "M3-no-M1":
+        sc.send(pc.m3_body(rb(384), rb(64)), rb(16), rb(32), conn=c)
+        return
+    s_, B_ = m2()
+    if kind == "abandon-M1":
+        return
+    a = rng.getrandbits(256) | 1
+    if kind in ("abandon-M4", "bad-M5"):
+        cl = ref.client(code, s_, B_, a)
+        sc.send(pc.m3_body(cl.A_bytes, cl.M1), rb(16), rb(32), conn=c)
+        if kind == "bad-M5":
+            ident = b"11111111-2222-3333-4444-555555555555"
+            sub, ltpk = pc.m5_subtlv(cl.K, ident, ed25519.Ed25519PrivateKey.from_private_bytes(rb(32)))
+            d = pc.parse(sub)
+            sig = d[pc.T_SIGNATURE]
+            sub = tlv8.encode([(pc.T_IDENTIFIER, ident), (pc.T_PUBLIC_KEY, ltpk), (pc.T_SIGNATURE, bytes([sig[0] ^ 1]) + sig[1:])])
+            sc.send(pc.m5_body(cl.K, sub), rb(16), rb(32), conn=c, idents=[ident])
+    elif kind == "wrong-code":
+        cl = ref.client(wrong, s_, B_, a)
+        sc.send(pc.m3_body(cl.A_bytes, cl.M1), rb(16), rb(32), conn=c)
+    elif kind == "wrong-proof":
+        cl = ref.client(code, s_, B_, a)
+        sc.send(pc.m3_body(cl.A_bytes, bytes([cl.M1[0] ^ 1]) + cl.M1[1:]), rb(16), rb(32), conn=c)
+    elif kind == "bogus-M3":
+        sc.send(pc.m3_body(rb(384), rb(64)), rb(16), rb(32), conn=c)
+    elif kind == "short-M3":
+        sc.send(tlv8.encode([(pc.T_STATE, b"\x03"), (pc.T_PUBLIC_KEY, rb(384))]), rb(16), rb(32), conn=c)
+    elif kind == "garbage":
+        sc.send(rb(7), rb(16), rb(32), conn=c)
+        sc.send(tlv8.encode([(pc.T_STATE, b"\x03")]), rb(16), rb(32), conn=c)
+    elif kind == "degenerate":
+        A = ref.i2b(ref.N)
+        _, m1, _ = ref.degenerate_proof(s_, A, B_)
+        sc.send(pc.m3_body(A, m1), rb(16), rb(32), conn=c)
+
+
+def _context(case) -> str:
+    """stable name of what surrounded the controller's run"""
+    kinds = [p["kind"] for p in case.get("prefix", [])]
+    by = [k for ks in case.get("between", {}).values() for k in ks]
+    parts = []
+    if any(k in FAILED_ATTEMPTS for k in kinds):
+        parts.append("after-failed-attempt")
+    if any(k in ABANDONED for k in kinds):
+        parts.append("after-abandoned-exchange")
+    if any(k.endswith("lost") for k in by):
+        parts.append("bystander-connection-lost")
+    if "get" in by:
+        parts.append("bystander-request")
+    return "+".join(parts)
+
+
 def oracle_exchange(ctx: Ctx, case: Dict[str, Any], v: Dict[str, Any]):
+    """A controller with the correct code must complete — whatever failed or abandoned attempts came before
+    its fresh M1 and whatever other connections do in between, EXCEPT a bystander's own pair-setup request
+    (any connection may replace the single SRP session with an M1: DESIGN section 9; never generated here)."""
     if v["ok"]:
         return
     shape = _shape(v.get("lead"))
+    if _context(case):   # pristine forced-vector cases cover the leading-zero shapes on their own
+        shape = _context(case)
     ctx.fail(
         f"C08:exchange-fails-at-{v['stage']}:{shape}",
         f"a controller using the correct setup code {case['code']!r} does not complete pair-setup: {v['why']} "
-        f"(leading zero bytes {v.get('lead')})",
+        f"(leading zero bytes {v.get('lead')}" + (f"; context: {_context(case)} {[p['kind'] for p in case.get('prefix', [])]} "
+                                                  f"{case.get('between', {})}" if _context(case) else "") + ")",
         {"kind": "exchange", "case": case},
     )
 
@@ -316,7 +442,8 @@ def _arbitrary_worker(c):
 def _exchange_worker(case):
     sc, v = run_exchange(case)
     return {"v": v, "line": sc.model_line(), "impl": sc.impl_view(),
-            "results": [{"status": r["status"], "body": hx(r["body"])[:40] + "...", "paired": len(r["paired"])}
+            "results": [{"bystander": r["bystander"], "status": r["status"]} if "bystander" in r else
+                        {"status": r["status"], "body": hx(r["body"])[:40] + "...", "paired": len(r["paired"])}
                         for r in sc.results]}
 
 
@@ -333,7 +460,8 @@ def run(ctx: Ctx):
     st.rule = (
         "streams: sha512 (Lean SHA-512 vs hashlib), numeric (hsrp.Server vs Srp.lean on (code,salt,b,A): "
         "v,k,B,u,S,K,Kb,M,HAMK,verify byte for byte), exchange (reference controller M1..M6 against the real "
-        "handler and against PairSetup.lean).  Non-trivial: a numeric/exchange case that reaches set_A+verify "
+        "handler and against PairSetup.lean; also after failed / abandoned attempts on the same or another connection "
+        "and with bystander connections made/lost or refused requests between the controller's messages).  Non-trivial: a numeric/exchange case that reaches set_A+verify "
         "(all do); distinct by (code, salt, b, A / a)."
     )
     lines: List[Dict[str, Any]] = []
@@ -397,7 +525,7 @@ def run(ctx: Ctx):
     # ---- stream exchange
     scripts = []
     nforced = len(CORPUS) + 1
-    ex_cases = cases if not ctx.quick else cases[:nforced] + cases[nforced:][:14]
+    ex_cases = (cases if not ctx.quick else cases[:nforced] + cases[nforced:][:14]) + context_cases(ctx)
     for case, w in zip(ex_cases, pe.pmap(_exchange_worker, ex_cases, workers=12)):
         v = w["v"]
         oracle_exchange(ctx, case, v)
@@ -406,11 +534,16 @@ def run(ctx: Ctx):
         impl.append(w["impl"])
         tags.append(("exchange", case["kind"]))
         st.hit("op", "exchange")
+        for p in case.get("prefix", []):
+            st.hit("op", "prefix-" + p["kind"] + ("-other-conn" if p["conn"] != case.get("conn", 0) else ""))
+        for pos, ks in case.get("between", {}).items():
+            for k in ks:
+                st.hit("op", f"bystander-{k}@{pos}")
         st.hit("outcome", "exchange-" + ("completed" if v["ok"] else "failed-at-" + v["stage"]))
         for k, n in (v.get("lead") or {}).items():
             if n:
                 st.hit("outcome", f"leading-zero-{k}")
-        st.case(["x", case["code"], case["salt"], case["b"], case["a"]], True)
+        st.case(["x", case["code"], case["salt"], case["b"], case["a"], case.get("prefix"), case.get("between")], True)
 
     model = run_model_parallel("C08", lines, workers=12)
     for ln, m, i, tag in zip(lines, model, impl, tags):
@@ -452,6 +585,11 @@ def search(ctx: Ctx):
         if c:
             cases.append(c)
     cases += [random_case(rng) for _ in range(150)]
+    saved, ctx.tier = ctx.tier, "thorough"
+    try:
+        cases += context_cases(ctx)
+    finally:
+        ctx.tier = saved
     for case in cases:
         _, v = run_exchange(case)
         oracle_exchange(ctx, case, v)
@@ -464,7 +602,10 @@ def replay(ctx: Ctx, r):
         oracle_exchange(ctx, c, v)
         print("exchange:", {k: c[k] for k in ("code", "salt", "a", "b")})
         for n, res in enumerate(sc.results):
-            print(f"  op{n}: HTTP {res['status']} body {hx(res['body'])[:60]}... paired={len(res['paired'])}")
+            if "bystander" in res:
+                print(f"  op{n}: bystander {res['bystander']} (its request: HTTP {res['status']})")
+            else:
+                print(f"  op{n}: conn {sc.ops[n]['conn']} HTTP {res['status']} body {hx(res['body'])[:60]}... paired={len(res['paired'])}")
         print("  leading zero bytes:", v.get("lead"), "| reached", v["stage"], "|", v["why"] or "completed")
     elif r["kind"] == "numeric":
         code, salt = c["code"].encode(), bytes.fromhex(c["salt"])
